@@ -58,7 +58,7 @@ def corpus(rng, per):
     def add(E, derives, std=("Debug", "Clone", "PartialEq")):
         nonlocal did
         E = copy.deepcopy(E)
-        E["id"], E["name"] = did, "E%d" % did
+        E["id"], E["name"] = did, E.get("keep_name") or ("E%d" % did)
         out.append((E, list(derives), std))
         did += 1
     for k in range(per):
@@ -101,6 +101,10 @@ def corpus(rng, per):
             mask[0] = 0
         add(IG.table_def(0, mask), ["EnumTable"], ("Debug", "Clone", "Copy", "PartialEq"))
         add(enum(0, [variant(IG.IDS[i]) for i in range(n)]), ["VariantArray", "VariantNames", "EnumCount", "EnumIter"])
+    # enums NAMED like items the generated code mentions through the configured path
+    add(dict(enum(0, [variant("Eof"), variant("Bad", ser=["bad"])]), keep_name="ParseError"), ["EnumString"])
+    add(dict(enum(0, [variant("Eof"), variant("Bad", ser=["bad"])]), keep_name="EnumCount"), ["EnumCount", "EnumIter"])
+    add(dict(enum(0, [variant("Eof"), variant("Bad", "tuple", [field("u8")])]), keep_name="IntoDiscriminant", dgen="none", dname="", dvis="", reprs=[]), ["EnumDiscriminants"])
     # every derive ALONE on an enum (nothing else registers the `strum` helper attribute or brings a trait into scope for it)
     for dv in ("VariantArray", "VariantNames", "EnumCount", "EnumIter", "AsRefStr", "IntoStaticStr", "Display", "EnumString", "EnumIs", "EnumTryAs",
                "EnumMessage", "EnumProperty", "FromRepr"):
